@@ -3,6 +3,7 @@
 //! (C06-C08, C11, C12, C18-C20), every case executed on the real code and judged by a
 //! truth predicate / reference computation.
 
+mod c06;
 mod c07;
 mod c11;
 mod c12;
@@ -14,6 +15,7 @@ fn main() {
     let cli = mc_core::parse_cli();
     mc_core::quiet_panics();
     match cli.property.as_str() {
+        "C06" => c06::run(&cli),
         "C07" => c07::run(&cli),
         "C11" => c11::run(&cli),
         "C12" => c12::run(&cli),
